@@ -4,12 +4,15 @@ import Pyc.Proofs.AddrText
 
 Property theorems only.  The models (`Pyc/Model/Addr.lean`, `Pyc/Model/Bech32.lean`) transliterate
 `pycardano/address.py` and `pycardano/crypto/bech32.py`; `Pyc/Spec/Cip19.lean` is the independent statement of the
-CIP-19 layout.  Every theorem is for all inputs (naturals, byte strings and character strings of any size); the only
-finite table is the single-error table of the checksum (`error_table`, `decide +kernel` in `Proofs/Bech32.lean`).
+CIP-19 layout.  Every theorem is for all inputs (naturals, byte strings and character strings of any size).  Detection
+of a single substituted symbol holds at every distance from the end of the string (`single_error_detected`: one
+checksum step is injective on 30-bit registers); the finite table `error_table` (`decide +kernel` in
+`Proofs/Bech32.lean`) is kept as an additional fact about the two constants.
 
-Modelled on purpose, as the code does it: the checksum acceptor takes the Bech32 **and** the Bech32m constant (the
-error table excludes both); strings are limited to 108 characters (`addr_text_total_counterexample`);
-`PointerAddress.decode` accepts non-minimal digits (no theorem claims otherwise).
+The code as repaired: `bech32_decode` accepts the Bech32 constant only (`decode_only_bech32`, `bech32m_rejected`) and
+applies no length limit (`bech32_roundtrip`, `addr_text_total` hold for payloads and pointers of every size, e.g.
+`addr_text_long_pointer`).  Modelled on purpose, as the code does it: `PointerAddress.decode` accepts non-minimal
+digits (no theorem claims otherwise).
 
 Not proved here (covered by the exhaustive substitution stream of `harness/checks/c15.py` only): rejection after a
 substitution *inside the human-readable prefix*, *by the separator character* or by a character outside the charset. -/
@@ -107,50 +110,107 @@ theorem checksum_valid (hrp : List Char) (data : List Nat) :
   verify_of_polymod_one _ _ (Bech32.checksum_valid hrp data)
 
 /-- `decode (encode hrp bs) = bs` for every non-empty printable lower-case prefix and every payload of at least two
-bytes whose string fits the 108-character limit of the code -/
-theorem bech32_roundtrip (hrp : List Char) (bs : Bytes) (hh : HrpOk hrp) (h2 : 2 ≤ bs.length)
-    (hlen : hrp.length + 7 + (8 * bs.length + 4) / 5 ≤ 108) :
+bytes, of whatever length -/
+theorem bech32_roundtrip (hrp : List Char) (bs : Bytes) (hh : HrpOk hrp) (h2 : 2 ≤ bs.length) :
     ∃ s, encode hrp bs = some s ∧ decode s = .ok (bs.map UInt8.toNat) := by
-  obtain ⟨s, hs⟩ := encode_some hrp bs hh hlen
+  obtain ⟨s, hs, _⟩ := encode_some hrp bs hh
   exact ⟨s, hs, decode_encode hrp bs hh h2 s hs⟩
 
-/-- beyond 108 characters `encode` returns `None` -/
-theorem bech32_encode_limit (hrp : List Char) (bs : Bytes) (hh : HrpOk hrp)
-    (hlen : hrp.length + 7 + (8 * bs.length + 4) / 5 > 108) : encode hrp bs = none :=
-  encode_none hrp bs hh hlen
+/-- `encode` never returns `None` on such a prefix: the string is the prefix, the separator, ⌈8n/5⌉ data characters and
+the six checksum characters of `bech32_create_checksum`, and `bech32_decode` returns prefix and data (Bech32) -/
+theorem bech32_encode_total (hrp : List Char) (bs : Bytes) (hh : HrpOk hrp) :
+    ∃ data, convertbits (bs.map UInt8.toNat) 8 5 true = some data ∧ data.length = (8 * bs.length + 4) / 5 ∧
+      encode hrp bs = some (hrp ++ '1' :: (data ++ createChecksum hrp data false).map chr) ∧
+      bech32Decode (hrp ++ '1' :: (data ++ createChecksum hrp data false).map chr) = some (hrp, data, .bech32) := by
+  obtain ⟨data, e1, ho, hl, he⟩ := encode_eq hrp bs hh
+  exact ⟨data, e1, hl, he, bech32Decode_bech32Encode hrp data hh ho⟩
 
 /-- whatever string `Address.encode()` returns, `Address.decode` maps it back to the address -/
 theorem addr_text_roundtrip (a : Address) (s : List Char) (hp : a.payment.Sized) (hs : a.staking.Sized)
     (h : toBech32 a = some (some s)) : fromBech32 s = .ok a :=
   fromBech32_toBech32 a s hp hs h
 
-/-- GOAL (full strength): every constructible address has a text form. -/
-def addr_text_total_goal : Prop :=
-  ∀ a : Address, a.payment.Sized → a.staking.Sized → toBytes a ≠ none → ∃ s, toBech32 a = some (some s)
+/-- every constructible address (all ten kinds, both networks, pointer components of any size) has a text form, and
+`Address.decode` maps that text back to the address: decode ∘ encode = id without exception -/
+theorem addr_text_total (a : Address) (hp : a.payment.Sized) (hs : a.staking.Sized) (hc : toBytes a ≠ none) :
+    ∃ s, toBech32 a = some (some s) ∧ fromBech32 s = .ok a :=
+  toBech32_total a hp hs hc
 
-/-- proved part: it has one whenever prefix + separator + data + checksum fit in 108 characters (every address without
-a pointer, every mainnet address with pointer components below 2^64, testnet pointers of at most 28 bytes) -/
-theorem addr_text_total_partial (a : Address) (bs : Bytes) (t : AddressType)
-    (ht : inferType a.payment a.staking = some t) (hb : toBytes a = some bs)
-    (hlen : (Addr.hrp t a.network).length + 7 + (8 * bs.length + 4) / 5 ≤ 108) : ∃ s, toBech32 a = some (some s) :=
-  toBech32_some a bs t ht hb hlen
+/-- the text form is the Bech32 encoding of the binary form under the CIP-5 prefix; its length is prefix + separator +
+⌈8n/5⌉ + 6 characters for `n` bytes, with no upper limit -/
+theorem addr_text_layout (a : Address) (bs : Bytes) (t : AddressType)
+    (ht : inferType a.payment a.staking = some t) (hb : toBytes a = some bs) :
+    ∃ s, toBech32 a = some (some s) ∧ encode (Addr.hrp t a.network) bs = some s ∧
+      s.length = (Addr.hrp t a.network).length + 7 + (8 * bs.length + 4) / 5 := by
+  obtain ⟨s, h, hl⟩ := toBech32_some a bs t ht hb
+  refine ⟨s, h, ?_, hl⟩
+  simpa [toBech32, ht, hb] using h
 
-/-- the full-strength goal is false of the model (and of the pinned code): a testnet pointer address with three
-10-byte components has a 111-character text form, and `Address.encode()` returns `None` -/
-theorem addr_text_total_counterexample : ¬ addr_text_total_goal := by
-  intro h
+/-- no two different addresses share a text form -/
+theorem addr_text_injective (a b : Address) (s : List Char) (ha : a.payment.Sized ∧ a.staking.Sized)
+    (hb : b.payment.Sized ∧ b.staking.Sized) (h1 : toBech32 a = some (some s)) (h2 : toBech32 b = some (some s)) :
+    a = b := by
+  have e1 := fromBech32_toBech32 a s ha.1 ha.2 h1
+  have e2 := fromBech32_toBech32 b s hb.1 hb.2 h2
+  rw [e1] at e2
+  exact Except.ok.inj e2
+
+/-- the former counterexample to totality: the testnet pointer address with three 10-byte components now has a text
+form (of 111 > 108 characters) which decodes to it -/
+theorem addr_text_long_pointer :
+    ∃ s, toBech32 ⟨.vkh (List.replicate 28 0), .ptr (2 ^ 63) (2 ^ 63) (2 ^ 63), .testnet⟩ = some (some s) ∧
+      108 < s.length ∧
+      fromBech32 s = .ok ⟨.vkh (List.replicate 28 0), .ptr (2 ^ 63) (2 ^ 63) (2 ^ 63), .testnet⟩ := by
   let a : Address := ⟨.vkh (List.replicate 28 0), .ptr (2 ^ 63) (2 ^ 63) (2 ^ 63), .testnet⟩
-  obtain ⟨s, hs⟩ := h a (by simp [a, Part.Sized]) (by simp [a, Part.Sized]) (by simp [a, toBytes, inferType])
   have hb : toBytes a = some (headerByte .keyPointer .testnet ::
       (List.replicate 28 0 ++ ptrEncode (2 ^ 63) (2 ^ 63) (2 ^ 63))) := rfl
-  have hl := encodeInt_2_63_length
-  have := toBech32_none a _ .keyPointer rfl hb (by
-    have : (Addr.hrp .keyPointer a.network).length = 9 := by decide
-    rw [this]
-    simp only [List.length_cons, List.length_append, List.length_replicate, ptrEncode]
-    omega)
-  rw [this] at hs
-  exact absurd hs (by simp)
+  obtain ⟨s, h, hl⟩ := toBech32_some a _ .keyPointer rfl hb
+  refine ⟨s, h, ?_, fromBech32_toBech32 a s (by simp [a, Part.Sized]) (by simp [a, Part.Sized]) h⟩
+  have h63 := encodeInt_2_63_length
+  have hh : (Addr.hrp .keyPointer a.network).length = 9 := by decide
+  rw [hl, hh]
+  simp only [List.length_cons, List.length_append, List.length_replicate, ptrEncode]
+  omega
+
+/-! ## the acceptor takes Bech32 checksums only -/
+
+/-- whatever string `bech32_decode` accepts, the reported encoding is Bech32 and the checksum register over prefix
+expansion ‖ data ‖ checksum is the Bech32 constant 1 (never the Bech32m constant) -/
+theorem decode_only_bech32 (s hrp : List Char) (data : List Nat) (spec : Encoding)
+    (h : bech32Decode s = some (hrp, data, spec)) :
+    spec = .bech32 ∧ ∃ full, polymod (hrpExpand hrp ++ full) = 1 ∧ data = full.take (full.length - 6) :=
+  bech32Decode_accepts s hrp data spec h
+
+/-- exact acceptance condition on strings `hrp ‖ "1" ‖ d` with a printable prefix and charset data: not mixed-case,
+non-empty prefix, at least six data characters, and checksum register equal to 1; nothing about the length -/
+theorem bech32_accept_iff (hrp d : List Char) (hA : ∀ x ∈ hrp, 33 ≤ x.toNat ∧ x.toNat ≤ 126)
+    (hB : ∀ x ∈ d, x ∈ charset) :
+    bech32Decode (hrp ++ '1' :: d) ≠ none ↔
+      ¬ ((hrp ++ '1' :: d).map lowerChar ≠ hrp ++ '1' :: d ∧ (hrp ++ '1' :: d).map upperChar ≠ hrp ++ '1' :: d) ∧
+      1 ≤ hrp.length ∧ 6 ≤ d.length ∧ polymod (hrpExpand (hrp.map lowerChar) ++ d.map idx) = 1 := by
+  rw [bech32Decode_shape hrp d hA hB]
+  split
+  · rename_i hm
+    simp only [Bool.and_eq_true, bne_iff_ne, ne_eq] at hm
+    constructor
+    · intro h; exact absurd rfl h
+    · intro h; exact absurd hm h.1
+  · rename_i hm
+    simp only [Bool.and_eq_true, bne_iff_ne, ne_eq] at hm
+    rw [decodeCore_some_iff, List.length_map]
+    exact ⟨fun h => ⟨hm, h⟩, fun h => h.2⟩
+
+/-- a string whose checksum is computed with the Bech32m constant (`bech32_encode(hrp, data, Encoding.BECH32M)`) is
+rejected by `bech32_decode`; `decode` and `Address.decode` raise -/
+theorem bech32m_rejected (hrp : List Char) (data : List Nat) (hh : HrpOk hrp) (hd : ∀ d ∈ data, d < 32) :
+    ∃ s, bech32Encode hrp data true = some s ∧ bech32Decode s = none ∧ decode s = .raised ∧
+      fromBech32 s = .error .bech32 :=
+  fromBech32_bech32m hrp data hh hd
+
+/-- `Address.decode` returns an address only for strings with a Bech32 checksum -/
+theorem addr_decode_only_bech32 (s : List Char) (a : Address) (h : fromBech32 s = .ok a) :
+    ∃ hrp data, bech32Decode s = some (hrp, data, .bech32) :=
+  fromBech32_ok_bech32 s a h
 
 /-! ## error detection of the checksum -/
 
@@ -164,15 +224,21 @@ theorem polymod_linear (v1 v2 : List Nat) (c1 c2 : Nat) (h : v1.length = v2.leng
     polymodFrom (c1 ^^^ c2) (List.zipWith (· ^^^ ·) v1 v2) = polymodFrom c1 v1 ^^^ polymodFrom c2 v2 :=
   polymodFrom_xor v1 v2 c1 c2 h
 
+/-- an error `e ∈ [1, 31]` in one symbol changes the residue by a non-zero amount at EVERY distance `k` from the end
+(multiplication by `x` modulo g(x) is injective: the constant coefficient of g(x) is non-zero) -/
+theorem single_error_detected (e k : Nat) (he1 : 1 ≤ e) (he : e < 32) : errRes e k ≠ 0 :=
+  errRes_ne_zero e k he1 (by omega)
+
 /-- the whole single-error table: an error `e ∈ [1, 31]` in one symbol, `k < 130` symbols before the end, changes the
-residue by something that maps neither accepted constant (1, 0x2BC830A3) to an accepted constant -/
+residue by something that maps neither of the constants 1 (Bech32), 0x2BC830A3 (Bech32m) to one of them: one
+substitution cannot turn a Bech32 string into a Bech32m string either (not needed by the acceptor any more) -/
 theorem error_table (e k : Nat) (he1 : 1 ≤ e) (he : e < 32) (hk : k < 130) :
     errRes e k ≠ 0 ∧ errRes e k ≠ 1 ^^^ bech32mConst := by
   have := errRes_ok e k he1 he hk
   simpa [okRes] using this
 
-/-- a string that `bech32_decode` accepts is rejected after one character of its data part (payload or checksum) is
-replaced by a different charset character -/
+/-- a string of any length that `bech32_decode` accepts is rejected after one character of its data part (payload or
+checksum) is replaced by a different charset character -/
 theorem single_subst_rejected (hrp pre suf : List Char) (c c' : Char)
     (hA : ∀ x ∈ hrp, 33 ≤ x.toNat ∧ x.toNat ≤ 126)
     (hpre : ∀ x ∈ pre, x ∈ charset) (hsuf : ∀ x ∈ suf, x ∈ charset) (hc : c ∈ charset) (hc' : c' ∈ charset)
@@ -195,6 +261,19 @@ example : HrpOk "addr_test".toList ∧ HrpOk "stake".toList := by decide
 /-- BIP-173 test vector `a12uel5l`: accepted, so `single_subst_rejected` applies to it with `pre = []`, `c = '2'` -/
 example : bech32Decode ("a".toList ++ '1' :: ([] ++ '2' :: "uel5l".toList)) = some (['a'], [], .bech32) := by decide
 
+/-- BIP-350 test vector `a1lqfn3a` (valid Bech32m): rejected -/
+example : bech32Decode "a1lqfn3a".toList = none := by decide
+
+/-- `bech32m_rejected` is not vacuous: the mainnet enterprise address of key hash `00 01 … 1b` with a Bech32m checksum
+(the recorded witness of the former finding) is rejected by `bech32_decode`, so `Address.decode` raises -/
+example : bech32Decode "addr1vyqqzqsrqszsvpcgpy9qkrqdpc83qygjzv2p29shrqv35xc8lu3x2".toList = none ∧
+    (fromBech32 "addr1vyqqzqsrqszsvpcgpy9qkrqdpc83qygjzv2p29shrqv35xc8lu3x2".toList).toOption = none := by
+  decide +kernel
+
+/-- … while the same payload with the Bech32 checksum decodes -/
+example : (fromBech32 "addr1vyqqzqsrqszsvpcgpy9qkrqdpc83qygjzv2p29shrqv35xcjrvarg".toList).toOption
+    = some ⟨.vkh ((List.range 28).map UInt8.ofNat), .none, .mainnet⟩ := by decide +kernel
+
 example : fromBytes (headerByte .keyNone .mainnet :: List.replicate 28 7)
     = .ok ⟨.vkh (List.replicate 28 7), .none, .mainnet⟩ := by rfl
 
@@ -215,12 +294,19 @@ end Pyc.C15
 #print axioms Pyc.C15.convertbits_roundtrip
 #print axioms Pyc.C15.checksum_valid
 #print axioms Pyc.C15.bech32_roundtrip
-#print axioms Pyc.C15.bech32_encode_limit
+#print axioms Pyc.C15.bech32_encode_total
 #print axioms Pyc.C15.addr_text_roundtrip
-#print axioms Pyc.C15.addr_text_total_partial
-#print axioms Pyc.C15.addr_text_total_counterexample
+#print axioms Pyc.C15.addr_text_total
+#print axioms Pyc.C15.addr_text_layout
+#print axioms Pyc.C15.addr_text_injective
+#print axioms Pyc.C15.addr_text_long_pointer
+#print axioms Pyc.C15.decode_only_bech32
+#print axioms Pyc.C15.bech32_accept_iff
+#print axioms Pyc.C15.bech32m_rejected
+#print axioms Pyc.C15.addr_decode_only_bech32
 #print axioms Pyc.C15.polymod_step_linear
 #print axioms Pyc.C15.polymod_linear
+#print axioms Pyc.C15.single_error_detected
 #print axioms Pyc.C15.error_table
 #print axioms Pyc.C15.single_subst_rejected
 #print axioms Pyc.C15.addr_single_subst_rejected
